@@ -488,6 +488,7 @@ func (ex *Exec) runBlock(b *ssa.BasicBlock) {
 		ex.instr(ins, b, heap, reach)
 	}
 	ex.endHeap[b] = heap
+	ex.exitEdges(b, heap, reach)
 	// back edges leaving this block
 	for _, s := range b.Succs {
 		if ex.li.isBack(b, s) {
@@ -635,7 +636,7 @@ func (ex *Exec) instr(ins ssa.Instruction, b *ssa.BasicBlock, h *Heap, reach Ter
 	case *ssa.MakeSlice:
 		ln := ex.val(x.Len)
 		cp := ex.val(x.Cap)
-		ex.safety("safe.makeslice", reach, and(le(tInt(0), ln), le(ln, cp), le(cp, tIntS(maxLen))), x, "make([]T, len, cap) with negative or huge size")
+		ex.safety("safe.makeslice", reach, and(le(tInt(0), ln), le(ln, cp), le(cp, app(sInt, "*", tInt(2), tIntS(maxLen)))), x, "make([]T, len, cap) with negative or huge size")
 		base := ex.alloc(h, "slice")
 		et := x.Type().Underlying().(*types.Slice).Elem()
 		key := ex.memKey(et)
